@@ -42,7 +42,8 @@ CONSTANTS Ids,                 \* possible unit ids (the id generator may pick a
           FindUnitHoldsRLock,  \* TRUE: findUnit keeps the read lock while rescanning (the code before the fix)
           KF_EmptyStatus,      \* TRUE: Durable is checked modulo the known finding "empty status after crash"
           KF_LiveRunnerFailed, \* TRUE: Durable is checked modulo the finding "unit with a live runner marked Failed at restart"
-          KF_CancelOverS       \* TRUE: SucceededIsFinal is checked modulo the known finding "Cancel overwrites Succeeded"
+          KF_CancelOverS,      \* TRUE: SucceededIsFinal is checked modulo the finding "Cancel overwrites Succeeded"
+          CancelKeepsSucceeded \* TRUE: UpdateBasicStatus(Canceled) leaves a Succeeded record alone (the code since its repair)
 
 None == "none"
 Absent == [k |-> "absent"]
@@ -143,15 +144,17 @@ UfsLocs == {"sb_u_wait", "sb_u_starting", "sb_u_launch", "sb_u_pid", "x_u_clear"
 
 U(st, ksz, sz, kpid, pid) == [st |-> st, ksz |-> ksz, sz |-> sz, kpid |-> kpid, pid |-> pid]
 
-Upd(a) ==
-  LET l == loc[a]  i == uid[a] IN
+\* the update made at location l when the stdout file has so bytes and the payload ended as ch
+UpdAt(l, so, ch) ==
   CASE l \in {"sb_u_wait", "sb_u_starting", "sb_u_launch", "r_u_pend"} -> U("P", FALSE, 0, TRUE, FALSE)
     [] l = "sb_u_pid"      -> U("keep", TRUE, 0, FALSE, TRUE)
     [] l = "x_u_clear"     -> U("keep", TRUE, 0, FALSE, FALSE)
     [] l \in {"cn_u_cancel", "rl_u_cancel"} -> U("C", TRUE, 0, TRUE, FALSE)
-    [] l \in {"sc_u_failload", "sc_u_pendfail", "r_u_killed", "r_u_err"} -> U("F", FALSE, stdout[i], TRUE, FALSE)
-    [] l = "r_u_tick"      -> U("R", FALSE, stdout[i], TRUE, FALSE)
-    [] l = "r_u_final"     -> U(IF child[i] = "ok" THEN "S" ELSE "F", FALSE, stdout[i], TRUE, FALSE)
+    [] l \in {"sc_u_failload", "sc_u_pendfail", "r_u_killed", "r_u_err"} -> U("F", FALSE, so, TRUE, FALSE)
+    [] l = "r_u_tick"      -> U("R", FALSE, so, TRUE, FALSE)
+    [] l = "r_u_final"     -> U(IF ch = "ok" THEN "S" ELSE "F", FALSE, so, TRUE, FALSE)
+
+Upd(a) == UpdAt(loc[a], stdout[uid[a]], child[uid[a]])
 
 After(a) ==
   LET l == loc[a] IN
@@ -162,8 +165,9 @@ After(a) ==
     [] l = "sc_u_pendfail" -> "sc_reg"      [] l = "r_u_pend" -> "r_open"
     [] l = "r_u_tick" -> "r_loop"           [] l \in {"r_u_final", "r_u_killed", "r_u_err"} -> "r_exit"
 
-ApplyUpd(m, u) == Rec(IF u.st = "keep" THEN m.st ELSE u.st, IF u.ksz THEN m.sz ELSE u.sz, m.ty,
-                      IF u.kpid THEN m.pid ELSE u.pid)
+ApplyUpd(m, u) ==
+  IF CancelKeepsSucceeded /\ u.st = "C" /\ m.st = "S" THEN m
+  ELSE Rec(IF u.st = "keep" THEN m.st ELSE u.st, IF u.ksz THEN m.sz ELSE u.sz, m.ty, IF u.kpid THEN m.pid ELSE u.pid)
 
 \* C13 step properties, evaluated where the sf_apply hook sits: old = the record just read under the lock
 ApplyBad(old, new) ==
@@ -514,7 +518,8 @@ ScanRestart(a) ==
          THEN Goto(a, "sc_reg") /\ UNCHANGED mon
          ELSE /\ mon' = [mon EXCEPT ![i] = TRUE]
               /\ Goto(a, IF mem[i].st = "P" THEN "sc_u_pendfail" ELSE "sc_reg")
-  /\ liveFail' = [liveFail EXCEPT ![uid[a]] = @ \/ (mem[uid[a]].ty = "cmd" /\ mem[uid[a]].st = "P" /\ RunnerAlive(uid[a]))]
+  /\ liveFail' = [liveFail EXCEPT ![uid[a]] = @ \/ (mem[uid[a]].ty = "cmd" /\ mem[uid[a]].st = "P"
+                                                          /\ (RunnerAlive(uid[a]) \/ (IsRec(sfile[uid[a]]) /\ sfile[uid[a]].st # "P")))]
   /\ UNCHANGED <<disk, flock, up, active, mem, alock, todo, uid, ufs, rl, ours, rsig, child, ticks,
                  opsLeft, acked, told, pre, relreq, cnreq, released, gen, emptyRec, crashes, bad>>
 
